@@ -205,8 +205,8 @@ class Input:
         self.cols = cols
         self.n = n
         self.ncol = len(cols)
-        self.names = ['a', 'b'][:self.ncol]
-        self.is_pd = kind in ('series', 'series_dup', 'df1', 'df2')
+        self.names = ['a', 'a'] if kind == 'df2same' else ['a', 'b'][:self.ncol]
+        self.is_pd = kind in ('series', 'series_dup', 'df1', 'df2', 'df2same')
         self.ndim = 1 if kind in ('series', 'series_dup', 'arr1') else 2
         self.stamps = [START + pd.Timedelta(days=i) for i in range(n)]
         if kind == 'series_dup' and n >= 2:
@@ -228,6 +228,8 @@ class Input:
         if self.kind in ('df1', 'df2'):
             return pd.DataFrame({nm: raw[:, j].copy() for j, nm in enumerate(self.names)}, index=self._index(),
                                 columns=list(self.names), dtype=float)
+        if self.kind == 'df2same':
+            return pd.DataFrame(raw.copy(), index=self._index(), columns=['a', 'a'], dtype=float)          # two columns carrying ONE label: columns are positions
         return raw
 
     def rows(self):
@@ -383,18 +385,25 @@ def check(case):
             INF = float('inf')
             cols = [[None if case['mask'][i][j] else ((INF, -INF)[j] if i % 2 == 0 else (-1e308, INF)[j]) for i in range(n)] for j in range(2)]
         pairs = [('df2', 'arr22')]
+        if n and not case.get('vals'):
+            pairs.append(('df2same', 'arr22'))
     flat = [v for c in cols for v in c]
     mixed = any(v is None for v in flat) and any(v is not None for v in flat)
 
     calls = []                                               # (name, steps, limit, callable)
+    owned = []                                               # (name, limit, the list object handed to df_fillna, what it must still hold)
     for name, method, limits in MENU:
         steps = list(method) if isinstance(method, (list, tuple)) else [method]
         for limit in limits:
+            # a method LIST is the caller's object: ONE list object serves every call made with this (methods, limit) entry and must still be what it was afterwards
+            mobj = list(method) if isinstance(method, list) else method
             if limit is None:
-                fn = lambda x, method=method: df_fillna(x, list(method) if isinstance(method, list) else method)
+                fn = lambda x, mobj=mobj: df_fillna(x, mobj)
             else:
-                fn = lambda x, method=method, limit=limit: df_fillna(x, list(method) if isinstance(method, list) else method, limit=limit)
+                fn = lambda x, mobj=mobj, limit=limit: df_fillna(x, mobj, limit=limit)
             calls.append((name, steps, limit, fn, 'df_fillna(x, %r%s)' % (method, '' if limit is None else ', limit=%d' % limit)))
+            if isinstance(method, list):
+                owned.append((name, limit, mobj, list(method)))
     calls.append(('nona()', ['nona'], None, lambda x: nona(x), 'nona(x)'))
 
     for pk, ak in pairs:
@@ -460,6 +469,11 @@ def check(case):
                         out.nontrivial('%s|%s|%s' % (inp.kind, name, limit))
                 else:
                     out.cls('%s:unchanged' % name)
+        for name_, limit_, mobj, keep in owned:
+            if mobj != keep:
+                out.viol('operand-mutated', 'df_fillna(x, m%s) with m = %r: the list is now %r' % ('' if limit_ is None else ', limit=%d' % limit_, keep, mobj), method=name_, container='method-list',
+                         limit=_lim(limit_))
+                mobj[:] = keep
         # ---- nona with an edge: argument untouched, only all-NaN rows may go
         for edge in (1, -1):
             if pk == 'series_dup':
